@@ -119,12 +119,14 @@ class QubitScript:
     def __init__(self, per_qubit: dict):
         self.per = {int(k): list(v) for k, v in per_qubit.items()}
         self.unexpected = 0
+        self.events = None  # interpreter event list: measurements after state_result are clean-up
 
     def __call__(self, q, p1):
         lst = self.per.get(q)
         if lst:
             return lst.pop(0)
-        self.unexpected += 1
+        if self.events is None or not any(e[0] == "state_result" for e in self.events):
+            self.unexpected += 1
         return 1 if p1 > 0.5 else 0
 
 
@@ -173,6 +175,7 @@ def run_case(job: dict) -> dict:
             try:
                 script = QubitScript(job["force"])
                 it = Interp(pkg.modules[0], budget=200_000, measure_oracle=script)
+                script.events = it.events
                 out = it.run("main_" + way, [])
                 w["end"] = "panic" if "panic" in out else "exit" if "exit" in out else "return"
                 results = {}
